@@ -601,7 +601,9 @@ class FunctionTranslator:
                         for a in n.args:
                             if isinstance(a, ast.Name):
                                 add(a.id)
-        return [n for n in out if n not in loopvars] + [n for n in out if n in loopvars and False]
+        # a loop variable is local to its loop here (for_ refuses one that is already bound, and it is not
+        # visible after the loop), so it is never part of a carried state
+        return [n for n in out if n not in loopvars]
 
     def definite(self, stmts):
         """names certainly bound (by a plain assignment) when stmts fall through; None = never falls through"""
@@ -1174,17 +1176,11 @@ def check_module(path, tree, names, cls=None):
         if isinstance(n, (ast.FunctionDef, ast.AsyncFunctionDef, ast.ClassDef)) and n.name in watched \
                 and n is not defs.get(n.name):
             raise TranslateError("%s:%d: %s is defined a second time" % (path, n.lineno, n.name))
-        if isinstance(n, (ast.FunctionDef, ast.AsyncFunctionDef, ast.Lambda)):
-            a = n.args
-            for x in a.args + a.kwonlyargs + a.posonlyargs + [y for y in (a.vararg, a.kwarg) if y]:
-                if x.arg in BUILTINS_USED and n.name in names if hasattr(n, "name") else False:
-                    raise TranslateError("%s:%d: parameter %s shadows a builtin" % (path, n.lineno, x.arg))
         if isinstance(n, (ast.Import, ast.ImportFrom)):
             for a in n.names:
                 bound = a.asname or a.name.split(".")[0]
-                if bound in watched and not (cls and bound in names and False):
-                    if not (cls is not None and bound in IMPORTED | EXTERNAL.keys() | OBSERVERS.keys()):
-                        raise TranslateError("%s:%d: import binds %s" % (path, n.lineno, bound))
+                if bound in watched or a.name == "*":
+                    raise TranslateError("%s:%d: import binds %s" % (path, n.lineno, bound))
         if isinstance(n, (ast.Global, ast.Nonlocal)):
             raise TranslateError("%s:%d: global / nonlocal" % (path, n.lineno))
         if isinstance(n, ast.Name) and n.id in ("setattr", "delattr", "__dict__", "globals", "locals", "vars",
